@@ -67,6 +67,9 @@ META["rule"] += (
 META["rule"] += (
     " " + "Added after the sixth round: memoised values handed out again must be what they were when stored (cache shadow); a third of the queries are run from two differently seeded states of the process-wide generators and must not end in the same state; knn estimators among the CouplingAnalysis queries; 'copy and change the copy' as a culprit; window dictionaries in the argument ledger.")
 
+META["rule"] += (
+    " " + 'Added after the seventh round: plots / networks of 1025 and 1100 states built twice from differently seeded generator states; Rainfall helpers and Data.rescale in the argument ledger.')
+
 CULPRITS = {
     "Surrogates": [
         ("white_noise_surrogates", lambda o: o.white_noise_surrogates()),
